@@ -10,6 +10,12 @@ use serde_json::{Value, json};
 
 const PK: [&str; 4] = ["Main", "A", "B", "C"];
 
+/// syntactic positions in which a package-qualified name can be written
+const REFERENCE_KINDS: [&str; 18] = [
+    "fn", "type", "variant", "ret-type", "generic-arg", "tuple-elem", "fn-type", "let-annot", "closure-annot", "closure-annot-nested", "struct-field", "enum-payload", "struct-lit",
+    "struct-pat", "impl-header", "trait-bound", "trait-call", "dyn-type",
+];
+
 /// implementing types for the impl-placement cases: a struct of package B, an instance of a generic
 /// struct of B, and builtin types (which have no home package: only the trait's package may implement)
 const IMPL_TARGETS: [&str; 9] = ["B::S", "B::G[int32]", "int32", "string", "bool", "Vec[int32]", "Ref[int32]", "(int32, bool)", "[int32; 2]"];
@@ -83,7 +89,7 @@ fn pkg_source(i: usize, edges: &[(usize, usize)], extra_ref: Option<(usize, usiz
         }
     }
     s.push('\n');
-    s.push_str(&format!("struct T{} {{ v: int32 }}\nenum E{} {{ V{}, W{}(int32) }}\n", PK[i], PK[i], PK[i], PK[i]));
+    s.push_str(&format!("struct T{} {{ v: int32 }}\nenum E{} {{ V{}, W{}(int32) }}\ntrait Tr{} {{ fn t(Self) -> int32; }}\nimpl Tr{} for int32 {{ fn t(self: int32) -> int32 {{ self }} }}\n", PK[i], PK[i], PK[i], PK[i], PK[i], PK[i]));
     let mut sum = format!("{}", i + 1);
     for (a, b) in edges {
         if *a == i {
@@ -97,6 +103,22 @@ fn pkg_source(i: usize, edges: &[(usize, usize)], extra_ref: Option<(usize, usiz
                 "type" => {
                     s.push_str(&format!("fn probe(t: {}::T{}) -> int32 {{ 0 }}\n", PK[to], PK[to]));
                 }
+                // the same qualified type in every other position a type can be written
+                "ret-type" => s.push_str(&format!("fn probe() -> Vec[{p}::T{p}] {{ vec_new() }}\n", p = PK[to])),
+                "generic-arg" => s.push_str(&format!("fn probe(t: Vec[{p}::T{p}]) -> int32 {{ 0 }}\n", p = PK[to])),
+                "tuple-elem" => s.push_str(&format!("fn probe(t: (int32, {p}::T{p})) -> int32 {{ 0 }}\n", p = PK[to])),
+                "fn-type" => s.push_str(&format!("fn probe(t: ({p}::T{p}) -> int32) -> int32 {{ 0 }}\n", p = PK[to])),
+                "let-annot" => s.push_str(&format!("fn probe() -> int32 {{ let w: Vec[{p}::T{p}] = vec_new(); vec_len(w) }}\n", p = PK[to])),
+                "closure-annot" => s.push_str(&format!("fn probe() -> int32 {{ let g = |t: {p}::T{p}| 0; 0 }}\n", p = PK[to])),
+                "closure-annot-nested" => s.push_str(&format!("fn probe() -> int32 {{ let g = |t: Vec[{p}::T{p}]| 0; 0 }}\n", p = PK[to])),
+                "struct-field" => s.push_str(&format!("struct Wrap {{ inner: {p}::T{p} }}\n", p = PK[to])),
+                "enum-payload" => s.push_str(&format!("enum WrapE {{ NoW, HasW({p}::T{p}) }}\n", p = PK[to])),
+                "struct-lit" => s.push_str(&format!("fn probe() -> int32 {{ let t = {p}::T{p} {{ v: 1 }}; t.v }}\n", p = PK[to])),
+                "struct-pat" => s.push_str(&format!("fn probe(t: {p}::T{p}) -> int32 {{ match t {{ {p}::T{p} {{ v: k }} => k }} }}\n", p = PK[to])),
+                "impl-header" => s.push_str(&format!("trait Loc {{ fn l(Self) -> int32; }}\nimpl Loc for {p}::T{p} {{ fn l(self: {p}::T{p}) -> int32 {{ 0 }} }}\n", p = PK[to])),
+                "trait-bound" => s.push_str(&format!("fn probe[U: {p}::Tr{p}](u: U) -> int32 {{ 0 }}\n", p = PK[to])),
+                "trait-call" => s.push_str(&format!("fn probe() -> int32 {{ {p}::Tr{p}::t(1) }}\n", p = PK[to])),
+                "dyn-type" => s.push_str(&format!("fn probe(d: dyn {p}::Tr{p}) -> int32 {{ 0 }}\n", p = PK[to])),
                 _ => {
                     s.push_str(&format!("fn probe() -> int32 {{ match {}::E{}::V{} {{ {}::E{}::V{} => 0, {}::E{}::W{}(k) => k }} }}\n", PK[to], PK[to], PK[to], PK[to], PK[to], PK[to], PK[to], PK[to], PK[to]));
                 }
@@ -139,7 +161,7 @@ fn cases_list(tier: Tier) -> Vec<Value> {
     // references to packages that are not directly imported: chain Main->A->B, C unrelated
     for from in 0..3 {
         for to in 0..4 {
-            for k in ["fn", "type", "variant"] {
+            for k in REFERENCE_KINDS {
                 v.push(json!({"kind": "reference", "from": from, "to": to, "what": k}));
             }
         }
@@ -163,7 +185,7 @@ impl Family for Isolation {
         &["C16", "C04", "C13"]
     }
     fn rule(&self) -> &'static str {
-        "all import graphs on {Main,A,B,C} with <= 4 edges (quick) / all 4096 (thorough) incl. cycles and self-reachable shapes: accepted iff the subgraph reachable from Main is acyclic, and then the program prints the value the graph denotes; 9 existence/naming faults (missing directory, misnamed package declaration, empty directory) on a diamond; 36 qualified references (fn, type, variant) from each package of a chain to each package: accepted iff the target is the package itself or a direct import; 16 impl placements (subsets of {A, B, C, Main}) x 9 implementing types {B::S, B::G[int32], int32, string, bool, Vec[int32], Ref[int32], (int32, bool), [int32; 2]} for a trait in A: accepted iff every impl is in the trait's package or (for B's own types) the type's package and at most one exists (builtin types have no home package). verdict = pure reference function of the configuration. non-trivial = configurations that must be rejected; distinct = distinct configuration"
+        "all import graphs on {Main,A,B,C} with <= 4 edges (quick) / all 4096 (thorough) incl. cycles and self-reachable shapes: accepted iff the subgraph reachable from Main is acyclic, and then the program prints the value the graph denotes; 9 existence/naming faults (missing directory, misnamed package declaration, empty directory) on a diamond; 216 qualified references from each package of a chain to each package in 18 syntactic positions (fn call, parameter / result / generic-argument / tuple / function type, let and closure-parameter annotation, struct field, enum payload, struct literal and pattern, impl header, trait bound, trait path call, dyn type, variant): accepted iff the target is the package itself or a direct import; 16 impl placements (subsets of {A, B, C, Main}) x 9 implementing types {B::S, B::G[int32], int32, string, bool, Vec[int32], Ref[int32], (int32, bool), [int32; 2]} for a trait in A: accepted iff every impl is in the trait's package or (for B's own types) the type's package and at most one exists (builtin types have no home package). verdict = pure reference function of the configuration. non-trivial = configurations that must be rejected; distinct = distinct configuration"
     }
     fn cases(&self, tier: Tier) -> Box<dyn Iterator<Item = Value> + '_> {
         Box::new(cases_list(tier).into_iter())
